@@ -17,6 +17,10 @@ CLAIMED["C10"] = {
     "text": "Bounded model checking of the template lexer's whitespace-control logic: (A) the real liquid.lex._tokenize_template is driven by stub regex-match objects so that text fragments are symbolic strings (<= 2 code points over space/newline/letter) and all hyphen flags symbolic; tokens go through the real parser and renderer and z3 decides on every path that the output equals 'text verbatim, left-stripped iff the previous closing delimiter has a hyphen, right-stripped iff the next opening delimiter has one; raw body verbatim; comment/doc bodies absent', for single markups and ordered pairs of markups (output, tag, echo, inline comment, raw, doc, comment). (B) the same oracle on the whole real pipeline incl. the compiled regular expression, with text from an 8-element pool and symbolic flags (solver-steered enumeration, labelled sel_only) for 9 markup kinds, shorthand comments and all 81 ordered pairs.",
     "note": "Trusted: CrossHair/z3; in (A) the stub match generator (conformance-checked against the real compiled pattern on every run). The regular expressions themselves are exercised only on pool texts (B). Custom delimiters are out (C11).",
 }
+CLAIMED["C22"] = {
+    "text": "Bounded model checking of the path-resolution logic: the real FileSystemLoader.resolve_path and PackageLoader._resolve_path run against SymPath, a stand-in for pathlib.Path answering from 7-10 symbolic booleans (name, suffix, '..' part, absolute, exists, is_file, resolves-inside, reject_symlinks, ext, 1-2 search paths); z3 decides on every path that a path is returned only for relative, '..'-free, existing files that resolve inside when symlinks are rejected, and that only TemplateNotFoundError is raised otherwise (path tree exhausted). Complemented by solver-steered enumeration (sel_only) of the real plain / caching / package loaders, sync and async, on template names assembled from fragment pools (7 prefixes x 15 x 16 x 5) against a sandbox tree with decoys and symlinks.",
+    "note": "Trusted: CrossHair/z3; the SymPath contract (a relative path without '..' joined to base is lexically inside base); pathlib and the OS for the enumerated names; an inline stand-in for asyncio's executor.",
+}
 NOT_APPLICABLE = {
     "C11": "delimiters flow only into re.escape/re.compile and functools.lru_cache keys (C code needing concrete values): no dimension is left for a solver to decide; enumerating delimiter sets would be bounded testing, a different technique (DESIGN.md §6)",
 }
